@@ -546,7 +546,25 @@ class Tr:
             for op, right in zip(node.ops, node.comparators):
                 if isinstance(op, (ast.In, ast.NotIn)):
                     bk, ck, _tk = self.E(left, env)
+                    if isinstance(right, (ast.Tuple, ast.List)) and _tk == "Int":
+                        # x in (a, b, …): a chain of equalities
+                        es = []
+                        bs += bk
+                        for el in right.elts:
+                            be, ce, te = self.E(el, env)
+                            if be or te != "Int":
+                                raise Untranslatable(f"membership test in a literal of {te}: {src}")
+                            es.append(f"{ck} = {ce}")
+                        cnd = "(" + " ∨ ".join(es) + ")" if es else "False"
+                        parts.append(cnd if isinstance(op, ast.In) else f"(¬ {cnd})")
+                        left = right
+                        continue
                     bd, cd, td = self.E(right, env)
+                    if td == ("List", "Int") and _tk == "Int":
+                        bs += bk + bd
+                        parts.append(f"({ck} ∈ {cd})" if isinstance(op, ast.In) else f"(¬ {ck} ∈ {cd})")
+                        left = right
+                        continue
                     if not (isinstance(td, tuple) and td[0] == "Dict"):
                         raise Untranslatable(f"membership test on {td}: {src}")
                     bs += bk + bd
@@ -601,6 +619,10 @@ class Tr:
                     return True
         if isinstance(st, ast.Assign) and all(isinstance(t, ast.Name) and t.id in self.drop_assign for t in st.targets):
             return True
+        if isinstance(st, ast.Assign) and all(ast.unparse(t) in self.drop_assign for t in st.targets):
+            return True
+        if isinstance(st, ast.For) and ("for %s in %s" % (ast.unparse(st.target), ast.unparse(st.iter))) in self.spec.get("drop_loops", []):
+            return True  # a loop over other objects that does not touch the modelled state (named in the spec)
         if isinstance(st, (ast.Assign, ast.AugAssign)):
             tgts = st.targets if isinstance(st, ast.Assign) else [st.target]
             if all(isinstance(t, ast.Attribute) and isinstance(t.value, ast.Name) and t.value.id == "self"
@@ -934,6 +956,7 @@ class Tr:
         nm = f"{self.name}.join{self.counter}"
         # the continuation `k` (code after `rest`) may read further variables: carry everything the function mentions
         vs = self.live_vars(list(self.fn.body), env)
+        vs = vs + [v for v in self.spec.get("extra_params", {}) if v in env and v not in vs]  # named only in call specs
         body = self.T(rest, env, k, loop)
         text = (f"def {nm} {self.header_generic()}{self.fuelbinder()}{self.binder(vs, env)} : Except Err {lean_type(self.res_type)} := do\n"
                 + textwrap.indent("\n".join(body), "  "))
@@ -1280,7 +1303,8 @@ def translate_spec(spec, src_root):
         if "slice" in spec:
             fn = slice_function(fn, spec)
         text = Tr(spec, fn).translate()
-        deps = sorted({h["lean"] for h in spec.get("calls", {}).values() if isinstance(h, dict)} - {spec["lean"]})
+        deps = sorted({h["lean"] for h in spec.get("calls", {}).values()
+                       if isinstance(h, dict) and not h["lean"].startswith("Py.")} - {spec["lean"]})
         header = header.replace("import FinamModel.PyPrelude\n", "import FinamModel.PyPrelude\n"
                                 + "".join(f"import FinamModel.Translated.{d}\n" for d in deps))
         return header + text + "\n\nend Finam.Tr\n", None
@@ -1362,7 +1386,13 @@ def driver_source(specs, status, src_root):
     """lean/FinamModel/DriverTr.lean: one case per translated function that does not read an object graph"""
     imports, cases = [], []
     for spec in specs:
-        if spec.get("heap") or "slice" in spec or not status.get(spec["lean"], {}).get("translated"):
+        if spec.get("heap") or ("slice" in spec and spec.get("group") != "Lifecycle") or not status.get(spec["lean"], {}).get("translated"):
+            continue
+        if spec.get("group") == "Lifecycle":
+            n = (len(spec.get("fields", {})) + len([k for k in spec.get("params", {}) if k not in spec.get("ignore_params", [])])
+                 + len(spec.get("extra_params", {})))
+            imports.append(f"import FinamModel.Translated.{spec['lean']}")
+            cases.append(f'  | "{spec["lean"]}" => toJ (Tr.{spec["lean"]} ' + " ".join(f"(fromJ (argAt args {i}))" for i in range(n)) + ")")
             continue
         if spec.get("group") == "Units":
             imports.append(f"import FinamModel.Translated.{spec['lean']}")
